@@ -12,17 +12,17 @@ LEVEL_NOTES={
  "C02":"Proved: per-chunk point/range mutation of the three kinds, bit-range helpers, chunk-table edits (insert/remove/replace, copy-on-write access), the Bitmap-level mutators listed in the evidence. NOT machine-checked: the induction over operation histories; Bitmap-level mutators not listed.",
  "C03":"Proved: scalar queries of each container kind against the view, chunk-table lookups, the Bitmap-level queries listed in the evidence. NOT machine-checked: 'chunk-level count = number of members of the view' (stated, meta-fact), Checksum.",
  "C04":"Proved: the nine chunk-level iterator types as cursors over the container view (next/peekNext/advanceIfNeeded/hasNext), a common interface contract they refine, the Bitmap-level iterators listed in the evidence. NOT machine-checked: callbacks (Iterate/Values/Ranges take function values, which are abstract), NextMany paths listed as bounded/undecided.",
- "C05":"Proved: size formulas, writers against a ghost model writer (bytes appended, count returned on success, errors propagated), readers on arbitrary byte sources (safety), byte sources. NOT machine-checked: the decode(encode(b)) == b composition at the Bitmap level (the encoders' layout clauses and the decoders' structure clauses are proved separately), base64.",
+ "C05":"Proved: size formulas, writers against a ghost model writer (bytes appended, count returned on success, errors propagated), readers on arbitrary byte sources (safety, exact consumption for a slice-backed source), byte sources, and a round-trip lemma procedure at the chunk-table level (ghost code: write the table into the model writer, read the record back: the decoder accepts, consumes exactly the bytes written = serializedSizeInBytes, and the decoded table has the same keys, chunk kinds and cardinality information). NOT machine-checked: equality of the VALUES inside decoded chunks with the encoded ones (payload bytes are pinned on both sides but not compared; bitset payloads go through an unsafe cast that has no bit-level contract), the Bitmap-level wrappers' composition through io interfaces, base64.",
  "C06":"Proved: layout clauses of the writers (cookie, counts, run-flag bits, descriptive and offset headers, little-endian payloads) and structure clauses of the reader. NOT machine-checked: an independent reading of the format specification (the spec predicates in the contracts are ours).",
  "C07":"Proved: frame obligations (arguments of binary operations are never written), freshness/ownership postconditions of every container operation, the copy-on-write discipline of the chunk table and the drivers listed in the evidence. BOUNDED: aggregates (FastOr..ParHeapOr, 64-bit ParOr) by small-scope enumeration. NOT machine-checked: the global no-unflagged-sharing invariant as an induction over histories.",
  "C08":"Proved: decoders flag every container aliasing the caller's bytes copy-on-write and own their tables; byte sources never write their buffer; writable access clones flagged containers. NOT machine-checked: 'every later derived bitmap' (history induction).",
  "C09":"Proved: validators characterise well-formedness; every constructive container operation ensures well-formedness and the size normal form (array <= 4096, bitmap > 4096, run size rule) where stated in the evidence. NOT machine-checked: closure over all public operations (drivers not listed), frozen round trip.",
  "C10":"Proved: decoder safety with no precondition on the bytes (every index/slice/nil/division/allocation obligation of the decoding paths), validators. NOT machine-checked: 'every proper prefix is rejected' as a statement over prefixes (follows from the exact consumption clauses, not separately proved), base64.",
  "C11":"Proved: lazy union kernels and repair per container pairing and the sequential helpers listed in the evidence. BOUNDED: FastOr/FastAnd/HeapOr/HeapXor/ParOr/ParAnd/ParHeapOr/AndAny by small-scope enumeration (goroutines, channels, container/heap are outside the subset).",
- "C13":"Proved: frozen reader (safety on arbitrary bytes, structure, count-field semantics, copy-on-write flags) and the writers listed in the evidence. NOT machine-checked: byte-level agreement of the three writers beyond the listed size/position clauses.",
- "C14":"Proved: size formulas per representation, cheapest-representation choice, the lemmas bounding the size of chunks in normal form. NOT machine-checked: that every public operation leaves chunks in normal form (history statement; the per-operation normal-form clauses are under C09).",
+ "C13":"Proved: frozen reader (safety on arbitrary bytes, acceptance exactly on well-formed images, structure, count-field semantics, copy-on-write flags, accepted length = the writers' size formula) and the writers listed in the evidence (size, header word, type codes). NOT machine-checked: byte-level agreement of the payload regions of the three writers (stores through reinterpreting cast views of the caller's buffer: the typed memory model cannot connect the views to the bytes; their frame obligations are listed as undecided).",
+ "C14":"Proved: size formulas per representation, cheapest-representation choice, and the lemma chain from the per-chunk bound to the documented bound (a well-formed table in normal form with keys below ceil(x/65536) serializes to at most 8 + 9*ceil(x/65536) + 2*N bytes). NOT machine-checked: that every public operation leaves chunks in normal form (history statement; the per-operation normal-form clauses are under C09).",
  "C15":"Proved: neighbour kernels per container kind and the Bitmap-level functions listed in the evidence. KNOWN FINDINGS: the absent-value family (A-12) is defective and recorded.",
- "C16":"Proved: per-kind offset kernels, dense conversions and drivers listed in the evidence.",
+ "C16":"Proved: per-kind offset kernels against an interface contract (low/high halves as views, normal form, fresh and disjoint storage), dense conversions (WriteDenseTo/ToDense/DenseSize/FromDense: all loops with invariants over word/bit pairs) and the drivers listed in the evidence. Partly proved (open obligations listed as undecided): Bitmap.FromDense's Bitmap-level view, AddOffset64's merge path and view, static Flip's per-slot ownership and views.",
  "C17":"Proved: 64-bit chunk table and the Bitmap methods listed in the evidence, several over ASSUMED (trusted) contracts of the 32-bit API where no proved one exists (listed under assumptions). BOUNDED: ParOr/FastOr/FastAnd by small-scope enumeration.",
  "C18":"Proved: 64-bit decoders (safety on arbitrary bytes, structure of the decoded table), validators. NOT machine-checked: round trip composition.",
  "C19":"Proved: structure-level contracts of the index updates listed in the evidence, over ASSUMED contracts of the bitmap API. BOUNDED: goroutine-based functions by small-scope enumeration where a stand-in is listed. KNOWN FINDINGS: (un)marshal defects recorded.",
